@@ -18,7 +18,10 @@ use crate::{
     QoS,
 };
 use bytes::{Bytes, BytesMut};
+#[cfg(not(poster_verif_loom))]
 use core::sync::atomic::{AtomicU16, AtomicU32};
+#[cfg(poster_verif_loom)]
+use loom::sync::atomic::{AtomicU16, AtomicU32};
 use either::{Either, Left, Right};
 use futures::{
     channel::{mpsc, oneshot},
